@@ -79,7 +79,7 @@ def check_text(text: str, ctx: Ctx, label: str = "") -> t.List[Violation]:
     except RecursionError:
         ctx.event("projection-skipped:recursion-limit")
         return out
-    if "!type" in repr(tree):
+    if absval.has_marker(tree):
         out.append(Violation("accepted:ill-typed-result", f"{text!r} -> {tree!r}"))
         return out
     for what, v in _attrs_and_rules(tree):
